@@ -377,6 +377,13 @@ class Ctx:
         self.cov["trusted_base"] = tb + list(extra_trusted)
         if bad:
             self.broken.append({"name": "forbidden-construct-scan", "detail": "; ".join(bad[:10])})
+        if r["ok"] and not self.quick:
+            # independent re-check of the compiled obligations and everything they depend on
+            rc, out = sh(["coqchk", "-o", "-silent", "-Q", "theories", "SGV", "SGV.Props.Properties_%s" % self.pid], cwd=COQ, timeout=1800)
+            self.cov["coqchk"] = "ok" if rc == 0 else "FAILED"
+            self.cov["coqchk_axioms"] = " ".join(out[out.find("* Axioms"):].split())[:1500] if "* Axioms" in out else out[-300:]
+            if rc != 0:
+                self.broken.append({"name": "coqchk SGV.Props.Properties_%s" % self.pid, "detail": out[-2000:]})
         if not r["ok"]:
             self.broken.append({"name": "theories/Props/Properties_%s.v" % self.pid,
                                 "detail": "proof obligations no longer check:\n" + r["log"][-3000:]})
